@@ -348,22 +348,34 @@ func camelToKebab(s string) string {
 
 // mergeStyles merges static and bound CSS styles, with bound values taking precedence.
 func (v *Vue) mergeStyles(staticStyle, boundStyle string) string {
-	// Parse both styles into maps
-	staticMap := parseStyleMap(staticStyle)
 	boundMap := parseStyleMap(boundStyle)
 
-	// Merge: bound values override static ones
-	for k, v := range boundMap {
-		staticMap[k] = v
-	}
-
-	// Rebuild style string: static declarations in their original order (with overridden
-	// values), then the bound-only ones in theirs. Ranging over the map would make the
-	// output depend on map iteration order.
+	// Rebuild style string: the static declarations in their original order - a bound value in
+	// place of the (first) static declaration of its property, every other declaration as it is,
+	// repeated properties included (display:-webkit-box;display:flex is a fallback chain) - then
+	// the bound-only ones in theirs. Ranging over a map would make the output depend on map
+	// iteration order.
 	var styles []string
-	for _, k := range styleOrder(staticStyle, boundStyle) {
-		if v, ok := staticMap[k]; ok {
-			styles = append(styles, k+":"+v+";")
+	emitted := map[string]bool{}
+	for _, part := range splitStyleDeclarations(staticStyle) {
+		kv := strings.SplitN(strings.TrimSpace(part), ":", 2)
+		if len(kv) != 2 {
+			continue
+		}
+		k, val := strings.TrimSpace(kv[0]), strings.TrimSpace(kv[1])
+		if bv, overridden := boundMap[k]; overridden {
+			if !emitted[k] {
+				emitted[k] = true
+				styles = append(styles, k+":"+bv+";")
+			}
+			continue
+		}
+		styles = append(styles, k+":"+val+";")
+	}
+	for _, k := range styleOrder(boundStyle) {
+		if bv, ok := boundMap[k]; ok && !emitted[k] {
+			emitted[k] = true
+			styles = append(styles, k+":"+bv+";")
 		}
 	}
 	return strings.Join(styles, "")
